@@ -189,6 +189,7 @@ type verifC08Model struct {
 	exact  map[string]map[string]string // kind -> name -> merged access
 	prefix map[string]map[string]string
 	scalar map[string]string
+	mixed  map[string]bool // "kind/e|p/name" and scalar names for which different levels were merged (signature detail only)
 }
 
 // verifC08NewModel merges the rules of all policies. intentionsPerRule selects the reading used for a service
@@ -196,7 +197,7 @@ type verifC08Model struct {
 // levels merge, the implied level applies only when no rule states one; true = every rule contributes its
 // effective (explicit or implied) level to the precedence merge.
 func verifC08NewModel(ps []verifC08Policy, intentionsPerRule bool) *verifC08Model {
-	m := &verifC08Model{exact: map[string]map[string]string{}, prefix: map[string]map[string]string{}, scalar: map[string]string{}}
+	m := &verifC08Model{exact: map[string]map[string]string{}, prefix: map[string]map[string]string{}, scalar: map[string]string{}, mixed: map[string]bool{}}
 	slot := func(r verifC08Rule, kind string) map[string]string {
 		top := m.exact
 		if r.Prefix {
@@ -211,6 +212,12 @@ func verifC08NewModel(ps []verifC08Policy, intentionsPerRule bool) *verifC08Mode
 	for _, p := range ps {
 		for _, r := range p.Rules {
 			s := slot(r, r.Kind)
+			if s[r.Name] != "" && s[r.Name] != r.Access {
+				m.mixed[fmt.Sprintf("%s/%v/%s", r.Kind, r.Prefix, r.Name)] = true
+				if r.Kind == "service" {
+					m.mixed[fmt.Sprintf("intention/%v/%s", r.Prefix, r.Name)] = true
+				}
+			}
 			s[r.Name] = verifC08Stronger(s[r.Name], r.Access)
 			if r.Kind == "service" {
 				is := slot(r, "intention")
@@ -228,6 +235,9 @@ func verifC08NewModel(ps []verifC08Policy, intentionsPerRule bool) *verifC08Mode
 			}
 		}
 		for k, v := range p.Scalars {
+			if m.scalar[k] != "" && m.scalar[k] != v {
+				m.mixed[k] = true
+			}
 			m.scalar[k] = verifC08Stronger(m.scalar[k], v)
 		}
 	}
@@ -252,9 +262,29 @@ func verifC08NewModel(ps []verifC08Policy, intentionsPerRule bool) *verifC08Mode
 // find: the rule that decides a name — the exact rule, else the longest prefix rule, else none.
 func (m *verifC08Model) find(kind, name string) (access, clause string) {
 	if a, ok := m.exact[kind][name]; ok {
-		return a, "exact"
+		if m.mixed[fmt.Sprintf("%s/false/%s", kind, name)] {
+			return a, "exact-rule-merged"
+		}
+		return a, "exact-rule"
 	}
-	return m.longestPrefix(kind, name)
+	a, clause := m.longestPrefix(kind, name)
+	if clause == "prefix" {
+		clause = "longest-prefix-rule"
+		if m.mixed[fmt.Sprintf("%s/true/%s", kind, m.longestPrefixName(kind, name))] {
+			clause = "longest-prefix-rule-merged"
+		}
+	}
+	return a, clause
+}
+
+func (m *verifC08Model) longestPrefixName(kind, name string) string {
+	best := ""
+	for p := range m.prefix[kind] {
+		if strings.HasPrefix(name, p) && len(p) >= len(best) {
+			best = p
+		}
+	}
+	return best
 }
 
 func (m *verifC08Model) longestPrefix(kind, name string) (access, clause string) {
